@@ -102,6 +102,7 @@ func c12Model(r *xrand.Rand, maxTypes, maxDepth int) (*gen.Model, string) {
 		return out
 	}
 	shape := ""
+	twinned := map[int]bool{}
 	for i := 0; i < n; i++ {
 		anc[i] = map[int]bool{}
 		bases := pickBases(i, r.Chance(1, 12))
@@ -119,6 +120,18 @@ func c12Model(r *xrand.Rand, maxTypes, maxDepth int) (*gen.Model, string) {
 			keyTypes = append(keyTypes, &gen.Block{Kind: "type", Name: fmt.Sprintf("@K%d", i), Notation: "jsight", Schema: &gen.SNode{Kind: "string", Val: fmt.Sprintf("key%d", i)}})
 			if r.Bool() { // ... and a property whose literal key has the same text: two different properties
 				sc.Props = append(sc.Props, &gen.SProp{Key: fmt.Sprintf("@K%d", i), Node: &gen.SNode{Kind: "string", Val: fmt.Sprintf("lit%d", i)}})
+			}
+		}
+		if len(bases) > 0 && r.Chance(1, 6) && !twinned[bases[0]] { // a name that differs from an inherited one by a blank only: another property
+			twinned[bases[0]] = true
+			if bt := types[bases[0]].Schema; len(bt.Props) > 0 && !bt.Props[0].KeyRef {
+				pad := []string{" ", "  "}[r.Intn(2)]
+				k := bt.Props[0].Key + pad
+				if r.Bool() {
+					k = pad + bt.Props[0].Key
+				}
+				uid++
+				sc.Props = append(sc.Props, &gen.SProp{Key: k, Node: &gen.SNode{Kind: "int", Val: fmt.Sprint(uid)}})
 			}
 		}
 		if r.Chance(1, 4) && i > 0 { // a nested object with its own allOf
